@@ -64,6 +64,9 @@ DoQSolve ==
        THEN LET x == B2Dec(e.out)  a == R(e.a)
             IN Advance(Put(x), B2Add(B2Sq(x), x) = B2Add(a, B2Mul(B2U, Emb(B2Tr(a)))))
        ELSE Advance(regs, FALSE)
+\* GFb127: add the low bit of val at bit index k (0..126)
+DoXorBit == Is("xor_bit") /\ Write(LET v == Bit(FromBytesLE(e.val), 0)
+                                   IN <<BitXor(R(e.a)[1], IF v = 1 THEN Pow2(e.k) ELSE Zero), Zero>>)
 DoGetBit == Is("get_bit") /\ Observe(Has("res") /\ e.res = Bit(R(e.a)[1], e.k))
 (* ---- codec and selection ---- *)
 DoEncode == Is("encode") /\ Observe(Has("out") /\ e.out = EncOf(R(e.a)))
@@ -98,7 +101,7 @@ DoLookup ==
 
 Next == \/ DoInit \/ DoRaw \/ DoAdd \/ DoSub \/ DoNeg \/ DoMul \/ DoSquare \/ DoXSquare \/ DoDiv \/ DoInvert \/ DoSqrt
         \/ DoMulSb \/ DoMulB \/ DoDivZ \/ DoDivZ2 \/ DoMulU \/ DoMulU1 \/ DoSelfPhi \/ DoTrace \/ DoHalfTrace \/ DoQSolve
-        \/ DoGetBit \/ DoEncode \/ DoEquals \/ DoIsZero \/ DoDecodeCt \/ DoDecode \/ DoSetCond \/ DoSelect \/ DoCSwap
+        \/ DoGetBit \/ DoXorBit \/ DoEncode \/ DoEquals \/ DoIsZero \/ DoDecodeCt \/ DoDecode \/ DoSetCond \/ DoSelect \/ DoCSwap
         \/ DoLookup
 Spec == Init /\ [][Next]_vars
 Consumed == TLCGet("stats").diameter - 1
